@@ -1091,6 +1091,73 @@ func (e *env) catchUp(why string) {
 		}
 		e.run.Count("live_reader_catchups", 1)
 	}
+	e.checkRegistrations(why)
+}
+
+// checkRegistrations: structural invariant of the disk cache at a quiescent point of a sequential
+// history (writer idle, every live reader has just delivered everything up to the right edge):
+// every open log reader holds a registration on the segment it reads - that registration is all
+// that keeps the collector from removing the segment under it and all that lets a cache reset
+// end it.  So the number of registrations the data set holds is at least the number of readers
+// that are live now (started, not ended, not closed, opened in the current generation).  A
+// reader that the store has just closed is seen as ended a moment later by its consumer, so a
+// deficit only counts when it persists over several looks during which no reader ended.
+// (A first version also looked after the writer had ended and raised an alarm on the unchanged
+// tree for a reader parked behind a trimmed empty segment: stricter than what correct code does.)
+func (e *env) checkRegistrations(why string) {
+	if e.sc == nil || e.cfg.Mode != "sequential" || e.stopped() {
+		return
+	}
+	// only while a log writer is active: its segment is open-ended, so every live reader stands
+	// inside a segment.  After the writer ended a caught-up reader may legitimately be parked
+	// behind the last segment without a registration (it followed the rotation into a new,
+	// still empty segment that was trimmed when the writer ended) until the next writer appears.
+	if w := e.w; w == nil || w.ended || w.aw == nil {
+		return
+	}
+	live := func() map[int]*rdr {
+		out := map[int]*rdr{}
+		for _, r := range e.liveReaders() {
+			if r.isAof && r.started.Load() && !r.term.Load() && !r.harnessCl.Load() && !r.bad.Load() && r.current && r.gen == e.gen.Load() {
+				out[r.id] = r
+			}
+		}
+		return out
+	}
+	var last string
+	for look := 0; look < 6; look++ {
+		before := live()
+		regs := e.sc.VerifAofReaderRegistrations()
+		n := 0
+		var perSeg []string
+		for left, c := range regs {
+			n += c
+			perSeg = append(perSeg, fmt.Sprintf("%d.aof:%d", left, c))
+		}
+		sort.Strings(perSeg)
+		after := live()
+		need := 0
+		var who []string
+		for id, r := range before {
+			if after[id] != nil {
+				need++
+				who = append(who, r.describe())
+			}
+		}
+		e.run.Count("registration_invariant_looks", 1)
+		if n >= need {
+			if need > 0 {
+				e.run.Count("registration_invariant_held_with_live_readers", 1)
+			}
+			return
+		}
+		sort.Strings(who)
+		last = fmt.Sprintf("%d registrations (%s) for %d live readers: %s", n, strings.Join(perSeg, " "), need, strings.Join(who, "; "))
+		time.Sleep(25 * time.Millisecond)
+	}
+	e.violate("ii-live|disk|live-reader-holds-no-segment-registration",
+		fmt.Sprintf("(ii) at a quiescent point (%s) the data set holds fewer reader registrations than there are live log readers, over six looks 25 ms apart: %s - the collector may remove the segment under such a reader and a cache reset does not end it", why, last),
+		map[string]any{"files": e.listFiles()})
 }
 
 // stalledBehindFreshReader decides a reader that made no progress for the whole watchdog period
